@@ -546,6 +546,29 @@ func genC17(g *Gen) {
 		g.Case("shard", J{"keys": strsJ(keys), "maxSize": 1 + r.Intn(len(keys)+1)})
 		g.Case("shard", J{"keys": strsJ(keys[:1]), "maxSize": 1 + r.Intn(3)})
 	}
+	// full fan-out: a key equal to the common prefix followed by every one of the 256 next bytes (257 sub-ranges),
+	// also without the prefix key, with a few children extended, under a longer parent
+	for c := 0; c < g.N(6, 60); c++ {
+		prefix := string(bsString(r, []int{0, 1, 3, 8, 9}[r.Intn(5)]))
+		var keys []string
+		if c%3 != 1 {
+			keys = append(keys, prefix)
+		}
+		for b := 0; b < 256; b++ {
+			if c%3 == 2 && r.Intn(40) == 0 {
+				continue // a few missing
+			}
+			k := prefix + string([]byte{byte(b)})
+			keys = append(keys, k)
+			if r.Intn(30) == 0 {
+				keys = append(keys, k+"x", k+"y")
+			}
+		}
+		if prefix == "" && c%3 != 1 {
+			// the empty key first
+		}
+		g.Case("shard", J{"keys": strsJ(keys), "maxSize": []int{1, 2, 3, 100, 255, 256, 257, 300}[(c/3+c)%8]})
+	}
 	// many keys over a 3-letter alphabet: deep recursion
 	for c := 0; c < g.N(6, 120); c++ {
 		set := map[string]bool{}
